@@ -151,3 +151,17 @@ Print Assumptions decode_usable_polyline_finite.
 Theorem decode_usable_loop_finite : forall bs l, decode_loop bs = Ok l -> Forall finite_point (l_vertices l).
 Proof. exact decode_loop_finite. Qed.
 Print Assumptions decode_usable_loop_finite.
+
+(** a decoded Rect is a valid rectangle (41c9631): latitudes within [-pi/2, pi/2], a valid
+    longitude interval, empty in both coordinates or in none — no NaN or infinity reaches a query *)
+Theorem decode_usable_rect : forall bs r, decode_rect bs = Ok r -> rect_valid r = true.
+Proof. exact decode_rect_valid. Qed.
+Print Assumptions decode_usable_rect.
+
+(** before 41c9631: the bytes 01 000000000000f0ff 8c826b5e4e34b966 000000000000f03f e862abd09b80f13f
+    (lat.lo = -Inf) decoded to an invalid rectangle *)
+Theorem decode_usable_rect_old_refuted :
+  exists r, run decode_rect_body_41c9631_old rect_old_witness = Ok r /\ rect_valid r = false
+            /\ decode_rect rect_old_witness = Err.
+Proof. exact C15_Total.decode_usable_rect_old_refuted. Qed.
+Print Assumptions decode_usable_rect_old_refuted.
